@@ -8,6 +8,7 @@ import ParryModel.C09.Theorems11
 import ParryModel.C09.Theorems12
 import ParryModel.C09.Theorems13
 import ParryModel.C09.Theorems14
+import ParryModel.C09.Theorems15
 /-!
 # C09 property theorems (index).
 * `Theorems1` — interval enclosures (`+ - neg *`, enclose, intersect), box algebra, `scaled`, `transform_by`, composites
@@ -25,4 +26,5 @@ import ParryModel.C09.Theorems14
 * `Theorems12` — tightness: `Aabb::transform_by` is exact; Cuboid, Ball, Capsule, Triangle boxes touch the posed shape on every face
 * `Theorems13` — `SimdAabb::transform_by` lanes (contain, tight), `BoundingSphere::tightened`, histories of `scaled` on TriMesh / Polyline / HeightField
 * `Theorems14` — the sine satisfies the `IntervalFunction` contract over ℝ (mean value theorem): `find_root_intervals` covers every multiple of π
+* `Theorems15` — the `dyn Shape` dispatch: `compute_aabb` / `compute_bounding_sphere` / `compute_swept_aabb` contain the posed shape for EVERY convex kind (RoundShape recursively); `Aabb::bounding_sphere`, composite spheres
 -/
